@@ -1,9 +1,10 @@
 """Native witness search for C22: the REAL hailtop Copier / SourceCopier / LocalAsyncFS / RouterAsyncFS of the tree under
 test copy real temporary files; only two size constants are made small (LocalAsyncFS.copy_part_size and Copier.BUFFER_SIZE)
-so that part and buffer boundaries are reached with tiny files.  The oracle is the documented rule set, written here
+so that part and buffer boundaries are reached with tiny files; the back-off delay between retries is zero.  The oracle is the documented rule set, written here
 independently of the code (a dictionary model of the destination tree).  Input (stdin JSON): {'sizes': [...] (optional),
 'part_size': int, 'buffer': int}.  Prints one JSON object {'confirmed': bool, ...first failing scenario...}."""
 import asyncio
+import errno
 import json
 import os
 import shutil
@@ -13,6 +14,8 @@ import tempfile
 from contracts.native import stubimport  # noqa: E402
 
 stubimport.install()
+import hailtop.utils.utils as hutils  # noqa: E402
+from hailtop.aiotools.fs import FileListEntry  # noqa: E402
 from hailtop.aiotools.fs.copier import Copier, Transfer  # noqa: E402
 from hailtop.aiotools.fs.exceptions import FileAndDirectoryError  # noqa: E402
 from hailtop.aiotools.local_fs import LocalAsyncFS  # noqa: E402
@@ -29,6 +32,60 @@ class SmallPartLocalFS(LocalAsyncFS):
 
 
 Copier.BUFFER_SIZE = BUF
+hutils.aiodocker = None  # as when the optional aiodocker package is absent (the stub importer would fabricate it)
+hutils.delay_ms_for_try = lambda *a, **k: 0  # back-off between retries of a transient error (the retry logic itself is the real one)
+
+
+class FlakyEntry(FileListEntry):
+    """an entry of a flaky mount: the real LocalFileListEntry, except that the stat behind status() times out once"""
+
+    def __init__(self, fs, inner):
+        self._fs = fs
+        self._inner = inner
+
+    def basename(self):
+        return self._inner.basename()
+
+    async def url(self):
+        return await self._inner.url()
+
+    async def url_maybe_trailing_slash(self):
+        return await self._inner.url_maybe_trailing_slash()
+
+    async def is_file(self):
+        return await self._inner.is_file()
+
+    async def is_dir(self):
+        return await self._inner.is_dir()
+
+    async def status(self):
+        self._fs.tick('status')
+        return await self._inner.status()
+
+
+class FlakyLocalFS(SmallPartLocalFS):
+    """the real local file system; exactly one operation fails with a transient error (ETIMEDOUT is in RETRYABLE_ERRNOS): the
+    `fail_on`-th status() of a listed entry, or handing out the `fail_on`-th entry of a listing"""
+
+    def __init__(self, fail_in, fail_on):
+        super().__init__()
+        self.fail_in, self.fail_on, self.calls, self.fired = fail_in, fail_on, {'status': 0, 'listing': 0}, False
+
+    def tick(self, what):
+        self.calls[what] += 1
+        if what == self.fail_in and self.calls[what] == self.fail_on and not self.fired:
+            self.fired = True
+            raise OSError(errno.ETIMEDOUT, 'Connection timed out (injected, once)')
+
+    async def listfiles(self, url, recursive=False, exclude_trailing_slash_files=True):
+        inner = await super().listfiles(url, recursive, exclude_trailing_slash_files)
+
+        async def wrapped():
+            async for entry in inner:
+                self.tick('listing')
+                yield FlakyEntry(self, entry)
+
+        return wrapped()
 
 
 def payload(n, salt=3):
@@ -99,6 +156,66 @@ async def main():
             if err is not None or got != want:
                 return {'confirmed': True, 'what': 'copied tree differs from the source tree under the documented destination rule', 'treat_dest_as': mode, 'destination_exists': dest_exists, 'trailing_slash': trailing,
                         'error': repr(err) if err else None, 'expected_files': sorted(want), 'found_files': None if got is None else sorted(got), 'differing': None if got is None else sorted(r for r in want if got.get(r) != want[r])}
+            shutil.rmtree(base)
+        # ---- names with characters a URL parser would split at: local paths are not URLs (LocalAsyncFS._get_path, url_join, url_basename)
+        special = {'reads': 24, 'reads#2.txt': 9, 'what?.txt': 5, 'sub/a;b': 3 * PART + 1, 'sub/ordinary.txt': PART}
+        for what, mk_src, mk_dest, srcname, destname, mode, into in (
+            ('file names with # ? ; below a copied directory', str, str, 'src', 'out', Transfer.DEST_IS_TARGET, False),
+            ('file names with # ? ; below a copied directory, file:// locations', lambda q: 'file://' + q, lambda q: 'file://' + q, 'src', 'out', Transfer.DEST_IS_TARGET, False),
+            ('destination directory name with #', str, str, 'src', 'd#1', Transfer.DEST_IS_TARGET, False),
+            ('destination directory name with ?', str, str, 'src', 'd?1', Transfer.DEST_IS_TARGET, False),
+            ('source and destination directory names with ; and #, copied into the directory', str, str, 's;1', 'into#1', Transfer.DEST_DIR, True),
+            ('source directory name with ?, destination inferred from an existing directory', str, str, 's?x', 'into;2', Transfer.INFER_DEST, True),
+        ):
+            k += 1
+            base = os.path.join(tmp, 'names%d' % k)
+            for rel, n in special.items():
+                os.makedirs(os.path.dirname(os.path.join(base, srcname, rel)), exist_ok=True)
+                open(os.path.join(base, srcname, rel), 'wb').write(payload(n, salt=len(rel)))
+            dest = os.path.join(base, destname)
+            if into:
+                os.makedirs(dest)
+            err = await run_copy(fs, Transfer(mk_src(os.path.join(base, srcname)), mk_dest(dest), treat_dest_as=mode))
+            want = {(os.path.join(srcname, rel) if into else rel): payload(n, salt=len(rel)) for rel, n in special.items()}
+            got = read_tree(dest) if os.path.isdir(dest) else None
+            if err is not None or got != want:
+                return {'confirmed': True, 'what': 'copied tree differs from the source tree: ' + what, 'treat_dest_as': mode, 'source': mk_src(os.path.join('<tmp>', srcname)), 'destination': mk_dest(os.path.join('<tmp>', destname)),
+                        'error': repr(err) if err else None, 'expected_files': sorted(want), 'found_files': None if got is None else sorted(got), 'files_anywhere_below_tmp': sorted(os.path.relpath(q, base) for q in (os.path.join(d, f) for d, _, fs_ in os.walk(base) for f in fs_) if not os.path.relpath(q, base).startswith(srcname + os.sep)),
+                        'differing': None if got is None else sorted(r for r in want if got.get(r) != want[r])}
+            shutil.rmtree(base)
+        k += 1
+        base = os.path.join(tmp, 'single')
+        os.makedirs(os.path.join(base, 'out'))
+        open(os.path.join(base, 'reads'), 'wb').write(b'plain file called reads')
+        open(os.path.join(base, 'reads#2.txt'), 'wb').write(payload(2 * PART + 3))
+        err = await run_copy(fs, Transfer(os.path.join(base, 'reads#2.txt'), os.path.join(base, 'out', 'lane2'), treat_dest_as=Transfer.DEST_IS_TARGET))
+        got = open(os.path.join(base, 'out', 'lane2'), 'rb').read() if os.path.exists(os.path.join(base, 'out', 'lane2')) else None
+        if err is not None or got != payload(2 * PART + 3):
+            return {'confirmed': True, 'what': "the copy of the file 'reads#2.txt' (next to a file 'reads') is not byte-identical to it", 'error': repr(err) if err else None, 'destination_holds': None if got is None else repr(got[:40])}
+        shutil.rmtree(base)
+        # ---- a transient error while the files of a source directory are sized up / listed: the attempt is retried and must
+        #      start from a fresh listing (only the back-off delay between the retries is shortened)
+        for fail_in, fail_on in (('status', 3), ('status', 1), ('listing', 2), ('listing', 4)):
+            k += 1
+            base = os.path.join(tmp, 'flaky%d' % k)
+            files = {'f0': 3, 'f1': PART + 2, 'f2': 0, 'f3': 2 * PART, 'sub/f4': 7, 'sub/f5': 1}
+            for rel, n in files.items():
+                os.makedirs(os.path.dirname(os.path.join(base, 'src', rel)), exist_ok=True)
+                open(os.path.join(base, 'src', rel), 'wb').write(payload(n, salt=len(rel) + n))
+            flaky = FlakyLocalFS(fail_in, fail_on)
+            try:
+                err = await run_copy(flaky, Transfer(os.path.join(base, 'src'), os.path.join(base, 'out'), treat_dest_as=Transfer.DEST_IS_TARGET))
+            finally:
+                await flaky.close()
+            if not flaky.fired:
+                return {'confirmed': False, 'error': 'the injected transient error never fired (%s #%d): scenario is vacuous' % (fail_in, fail_on)}
+            want = {rel: payload(n, salt=len(rel) + n) for rel, n in files.items()}
+            got = read_tree(os.path.join(base, 'out')) if os.path.isdir(os.path.join(base, 'out')) else {}
+            if err is None and got != want:
+                return {'confirmed': True, 'what': 'Copier.copy returned without error but source files have no (identical) destination after one transient error in the %s of the source directory' % fail_in,
+                        'transient_error': 'OSError(ETIMEDOUT) on call %d' % fail_on, 'fault_fired': flaky.fired, 'missing_files': sorted(set(want) - set(got)), 'differing': sorted(r for r in want if r in got and got[r] != want[r])}
+            if err is not None:
+                return {'confirmed': True, 'what': 'a single transient error in the %s of the source directory was not retried' % fail_in, 'error': repr(err)}
             shutil.rmtree(base)
         # ---- documented errors
         base = os.path.join(tmp, 'errs')
